@@ -76,6 +76,9 @@ def _inst(tier):
             out.append({"scen": "observe_on", "seq": seq, "fault": fault, "nt": 1})
     out.append({"scen": "observe_on_newthread", "seq": "n_n_c", "fault": None, "nt": 2})
     out.append({"scen": "observe_on_newthread", "seq": "n_e", "fault": None, "nt": 2})
+    # a raising delivery on a scheduler that survives it (the event loop thread dies with the exception, a per-action thread does not)
+    out.append({"scen": "observe_on_newthread", "seq": "n_n_n_c", "fault": 0, "nt": 2})
+    out.append({"scen": "observe_on_newthread", "seq": "n_n_n_c", "fault": 1, "nt": 2})
     out.append({"scen": "replay_late_subscriber", "seq": "n_n_c", "fault": None, "nt": 2})
     out.append({"scen": "replay_two_subscribers", "seq": "n_c", "fault": None, "nt": 2})
     # P=2: switch away at p0 and to another thread again at a later p1 (the pair is ordered); the first position is chunked over
